@@ -12,7 +12,7 @@ ENV = dict(os.environ, GOFLAGS="-mod=mod", GOPROXY="off", GOSUMDB="off", GOTOOLC
 
 
 def sh(cmd, cwd=None, timeout=1800):
-    p = subprocess.run(cmd, cwd=cwd, env=ENV, shell=isinstance(cmd, str), stdout=subprocess.PIPE, stderr=subprocess.STDOUT, text=True, timeout=timeout)
+    p = subprocess.run(cmd, cwd=cwd, env=ENV, shell=isinstance(cmd, str), stdout=subprocess.PIPE, stderr=subprocess.STDOUT, text=True, errors="replace", timeout=timeout)
     return p.returncode, p.stdout
 
 
@@ -52,7 +52,7 @@ def main():
         for s in suites:
             cov = os.path.join(tmp, "cov.json")
             env = dict(ENV, TALLYDRV=os.path.join(VERIF, "lean", ".lake", "build", "bin", "tallydrv"), VERIF_HARNESS_DIR=h)
-            p = subprocess.run([hbin, "-seed", seed, "-tier", tier, "-out", cov, s], cwd=VERIF, env=env, stdout=subprocess.PIPE, stderr=subprocess.STDOUT, text=True, timeout=3000)
+            p = subprocess.run([hbin, "-seed", seed, "-tier", tier, "-out", cov, s], cwd=VERIF, env=env, stdout=subprocess.PIPE, stderr=subprocess.STDOUT, text=True, errors="replace", timeout=3000)
             print("== suite %s rc=%d" % (s, p.returncode))
             if p.returncode not in (0, 1):
                 print(p.stdout[:1800]); print("   […]")
